@@ -40,7 +40,7 @@ def corpus():
     extra = [
         ("2 * (x + 3) = 4", {"x": -1}), ("x + 2 + 3 = 7", {"x": 2}), ("7 = x + (2 + 3)", {"x": 2}), ("(x + 1)^2 = 4", {"x": 1}),
         ("3^39 * 3", None), ("(2 + 4) * 4611686018427387904", None), ("4 / 0 + x", None), ("a - -(x^2)", None), ("x^0 + x", None),
-        ("0.5x^2 + 0.5x^2", None), ("y + y^0", None), ("5 - (2 + x)", None), ("2^-3 + x", None), ("8 / 4 * 2", None), ("(x / y) * z", None),
+        ("0.5x^2 + 0.5x^2", None), ("y + y^0", None), ("5 - (2 + x)", None), ("2^-3 + x", None), ("8 / 4 * 2", None), ("(x / y) * z", None), ("x + 1 / 40000", None), ("0.00002x + 1", None),
         ("-(2 + 3) * x", None), ("(2x)^2", None), ("4x * 2y * 5x", None), ("x * (y + 2)", None), ("(c + d) * (a + b)", None), ("3x = 9", {"x": 3}),
     ]
     seen = set()
